@@ -163,6 +163,17 @@ func (ck *checker) routes(e *jpref.Eq, elem any, class string, cs map[string]any
 	run("Script.Match(again)", func() bool { return script.Match(elem) })
 	c.Cover("route:gen")
 	run("Script.Match(gen)", func() bool { return script.Match(toGen(elem)) })
+	// the element with its homogeneous containers held as typed Go containers ([]string, []int,
+	// map[string]int, ...): which elements are selected there is C11's subject, but evaluation must stay
+	// total (operands of uncomparable Go types are simply unequal)
+	if tw, changed := typedTwin(elem); changed {
+		c.Cover("route:typed-containers-totality")
+		c.Eval(2)
+		if p := mon.Guard(func() { _ = script.Match(tw); _ = jp.Expr{filter}.Get([]any{tw}) }); p != nil {
+			c.Violation("Script.Match(typed containers)", "panic", class+"/"+mon.FaultClass(p.Msg), cs, "a boolean", p.String())
+			ok = false
+		}
+	}
 	// the printed form parsed back: && || ! and parentheses must combine exactly as the script prints
 	// (a text that does not parse at all is C14's business)
 	if hasIntegralFloat(e) {
@@ -584,4 +595,76 @@ func (g *treeGen) boolean(depth int) *jpref.Eq {
 	default:
 		return jpspec.Bin([]string{"eq", "neq", "lt", "gt", "lte", "gte"}[g.r.Intn(6)], g.operand(1), g.operand(1))
 	}
+}
+
+// typedTwin returns v with every homogeneous container of strings or int64s replaced by the typed Go
+// container ([]string, []int, map[string]string, map[string]int).
+func typedTwin(v any) (any, bool) {
+	switch t := v.(type) {
+	case []any:
+		if len(t) > 0 {
+			if ss, ok := allOf[string](t); ok {
+				return ss, true
+			}
+			if is, ok := allOf[int64](t); ok {
+				out := make([]int, len(is))
+				for i, x := range is {
+					out[i] = int(x)
+				}
+				return out, true
+			}
+		}
+		out := make([]any, len(t))
+		changed := false
+		for i, e := range t {
+			var ch bool
+			out[i], ch = typedTwin(e)
+			changed = changed || ch
+		}
+		return out, changed
+	case map[string]any:
+		if len(t) > 0 {
+			vals := make([]any, 0, len(t))
+			keys := make([]string, 0, len(t))
+			for k, e := range t {
+				keys = append(keys, k)
+				vals = append(vals, e)
+			}
+			if ss, ok := allOf[string](vals); ok {
+				m := map[string]string{}
+				for i, k := range keys {
+					m[k] = ss[i]
+				}
+				return m, true
+			}
+			if is, ok := allOf[int64](vals); ok {
+				m := map[string]int{}
+				for i, k := range keys {
+					m[k] = int(is[i])
+				}
+				return m, true
+			}
+		}
+		out := make(map[string]any, len(t))
+		changed := false
+		for k, e := range t {
+			var ch bool
+			out[k], ch = typedTwin(e)
+			changed = changed || ch
+		}
+		return out, changed
+	}
+	return v, false
+}
+
+func allOf[T any](a []any) ([]T, bool) {
+	out := make([]T, len(a))
+	for i, e := range a {
+		x, ok := e.(T)
+		if !ok {
+			return nil, false
+		}
+		out[i] = x
+	}
+	return out, true
 }
